@@ -24,6 +24,9 @@ func applyProfile(t *sim.Tape, c *Config, tier string) {
 	case "C02", "C03", "C04", "C07", "C08", "C12", "C14", "C17", "C18":
 		c.ProbePM = pick(t, 400, 250, 700)
 		c.ProbeRows[c.Profile] = true
+	case "C01":
+		c.ProbePM = pick(t, 200, 120, 350)
+		c.ProbeRows["C01"] = true
 	case "C05":
 		reorgy()
 		c.Lights = t.Range(2, 4)
